@@ -34,7 +34,11 @@ package verifharness
 //   togglerelay <EXT vOk> e:<addr>|d:<denom>
 //   updatepair <EXT vOk> <old> <new> <EXT metaFound> <EXT metaUnits> <EXT restOk>
 //   trace <EXT vOk> <EXT evmOk>  |  disable <EXT vOk> <EXT evmOk>        (fixed contents; vOk input via title)
-//   enable <addrOk> <period|x> <limit|x> <max|x> <min|x> <absOk> <EXT evmOk>
+//   enable <addrOk> <period> <limit> <max> <min> <absOk> <EXT evmOk>     (the four numbers are the LITERAL strings, hex: the model
+//        transcribes big.Int.SetString(s, 10) for ValidateBasic and, separately, for the handler's unchecked re-parse)
+//   any op may end with  raw=<name>:<hex>  tokens: the literal spelling of an address-like string field (ERC20 addresses a/o/n/t/c,
+//        relayer addr, tss address, rvesting From f); the model ignores them, the harness derives the EXT flags / canonical
+//        values next to them with the node's own parsers (IsHexAddress, HexToAddress, AccAddressFromBech32).  relayer's addrOk is e|0|1.
 //   agen <enable> <n> {<erc20> <EXT addrOk> <k> {<denom> <EXT valid>}}     (only directly after reset)
 //   rvgen <enable> <k> {<denom> <amt|nil>} <none|bad|good> <EXT initRewardValid> <canPay>
 // observation:  v=<ok|err|panic> h=<ok|err|panic> [c=<#clients> | n=<#token pairs>]
@@ -68,6 +72,7 @@ import (
 	stakingtypes "github.com/cosmos/cosmos-sdk/x/staking/types"
 	tmproto "github.com/tendermint/tendermint/proto/tendermint/types"
 	"github.com/tharsis/ethermint/crypto/ethsecp256k1"
+	ethermint "github.com/tharsis/ethermint/types"
 
 	"github.com/teleport-network/teleport/app"
 	"github.com/teleport-network/teleport/x/aggregate"
@@ -98,6 +103,8 @@ type c15World struct {
 	funded   sdk.AccAddress
 	unfunded sdk.AccAddress
 	ercPool  []common.Address // ERC20 contracts deployed in the base state, not registered
+	raw      map[string]string // raw=<name>:<hex> hints of the op being applied (spellings of address fields)
+	sfx      string            // the hints, re-appended to the canonical op line
 }
 
 var c15Uncle = common.HexToHash("0x1dcc4de8dec75d7aab85b567b6ccd41ad312451b948a7413f0a142fd40d49347").Bytes()
@@ -183,6 +190,10 @@ func c15class(msg string) string {
 		return "index-out-of-range"
 	case strings.Contains(msg, "slice bounds"):
 		return "slice-bounds"
+	case strings.Contains(msg, "reflect.Value.Type on zero Value"):
+		return "nil-bigint-in-abi-pack"
+	case strings.Contains(msg, "key is nil"):
+		return "store-nil-key"
 	case strings.Contains(msg, "nil pointer"):
 		return "nil-dereference"
 	case strings.Contains(msg, "ParamSetPair is invalid"):
@@ -197,6 +208,37 @@ func c15dbg(line, msg string) {
 	if os.Getenv("C15_DEBUG") != "" && strings.TrimSpace(strings.Trim(msg, "/ ")) != "" {
 		fmt.Fprintf(os.Stderr, "DBG %s\n    => %s\n", line, msg)
 	}
+}
+
+// lexical class of a numeric string (distribution counters only)
+func c15spellClass(x string) string {
+	dec := regexp.MustCompile(`^[0-9]+$`)
+	switch {
+	case x == "":
+		return "empty"
+	case dec.MatchString(x) && (len(x) == 1 || x[0] != '0'):
+		return "decimal"
+	case dec.MatchString(x):
+		return "leading-zero"
+	case regexp.MustCompile(`^[+-][0-9]+$`).MatchString(x):
+		return "signed"
+	case regexp.MustCompile(`^0[xX][0-9a-fA-F_]+$`).MatchString(x):
+		return "hex-prefix"
+	case regexp.MustCompile(`^0[bB][01_]+$`).MatchString(x), regexp.MustCompile(`^0[oO][0-7_]+$`).MatchString(x):
+		return "bin-oct-prefix"
+	case regexp.MustCompile(`^[0-9][0-9_]*$`).MatchString(x):
+		return "underscore"
+	case strings.TrimSpace(x) != x:
+		return "whitespace"
+	case regexp.MustCompile(`^[0-9.]+[eE][+-]?[0-9]+$`).MatchString(x):
+		return "exponent"
+	}
+	for _, c := range x {
+		if c > 127 {
+			return "unicode"
+		}
+	}
+	return "other"
 }
 
 // ---- bsc header sealing (same libraries as x/xibc/clients/light-clients/bsc/types/header.go) ---------------
@@ -292,6 +334,11 @@ func (w *c15World) mkCS(tok, sig string) (exported.ClientState, string) {
 		cs := &tsstypes.ClientState{TssAddress: w.funded.String()}
 		if !c15b(f[1]) {
 			cs.TssAddress = "not-bech32"
+		}
+		if rs, ok := w.raw["tss"]; ok {
+			cs.TssAddress = rs
+			_, err := sdk.AccAddressFromBech32(rs)
+			tok = "tss:" + c15f(err == nil)
 		}
 		return cs, tok
 	}
@@ -419,14 +466,43 @@ func c15title(ok bool) string {
 
 // apply executes one op; returns the canonical op line (EXT fields filled in) and the observation.
 func (w *c15World) apply(r *Rec, op string) (string, string) {
-	f := strings.Fields(op)
-	if f[0] == "reset" {
+	all := strings.Fields(op)
+	if all[0] == "reset" {
 		w.reset()
 		w.hist = []string{op}
 		return op, "ok"
 	}
+	// raw=<name>:<hex> tokens: the literal spelling of an address-like string field (ignored by the model, which only
+	// sees the EXT flags / canonical values the harness derives from it with the node's own parsers)
+	var f []string
+	w.raw, w.sfx = map[string]string{}, ""
+	for _, t := range all {
+		if strings.HasPrefix(t, "raw=") {
+			if i := strings.IndexByte(t, ':'); i > 4 {
+				w.raw[t[4:i]] = string(unhx(t[i+1:]))
+				w.sfx += " " + t
+				r.Count("raw-spelling")
+			}
+			continue
+		}
+		f = append(f, t)
+	}
 	w.hist = append(w.hist, op)
-	fix := func(line, out string) (string, string) { w.hist[len(w.hist)-1] = line; return line, out }
+	fix := func(line, out string) (string, string) {
+		if line == "" {
+			return line, out
+		}
+		w.hist[len(w.hist)-1] = line + w.sfx
+		return line + w.sfx, out
+	}
+	// spelling and value of an address field: the raw hint if present, else the checksum form of the canonical token
+	addrField := func(name, canon string) (string, common.Address) {
+		if rs, ok := w.raw[name]; ok {
+			return rs, common.HexToAddress(rs)
+		}
+		a := common.HexToAddress("0x" + canon)
+		return a.Hex(), a
+	}
 	ck := w.app.XIBCKeeper.ClientKeeper
 	ak := w.app.AggregateKeeper
 	switch f[0] {
@@ -438,6 +514,12 @@ func (w *c15World) apply(r *Rec, op string) (string, string) {
 			r.Count("unrepresentable")
 			w.hist = w.hist[:len(w.hist)-1]
 			return "", ""
+		}
+		if t, isTss := cs.(*tsstypes.ClientState); isTss {
+			if _, has := w.raw["tss"]; has {
+				_, err := sdk.AccAddressFromBech32(t.TssAddress)
+				f[3] = "tss:" + c15f(err == nil)
+			}
 		}
 		acons := c15anyCons(f[4], true)
 		var c govtypes.Content
@@ -482,7 +564,7 @@ func (w *c15World) apply(r *Rec, op string) (string, string) {
 			}
 			line = strings.Join([]string{f[0], f[1], f[2], f[3], f[4], sig, c15f(pruneErr), c15f(signerErr), "0"}, " ")
 		}
-		w.hist[len(w.hist)-1] = line
+		w.hist[len(w.hist)-1] = line + w.sfx
 		res := w.runContent(r, f[0], c, decodable)
 		r.Count("cs." + strings.Split(f[3], ":")[0])
 		return fix(line, fmt.Sprintf("v=%s h=%s c=%d", res.v, res.h, w.nClients()))
@@ -490,6 +572,17 @@ func (w *c15World) apply(r *Rec, op string) (string, string) {
 		p := &clienttypes.RegisterRelayerProposal{Title: c15title(c15b(f[1])), Description: "d", Address: w.funded.String()}
 		if !c15b(f[2]) {
 			p.Address = "bad"
+		}
+		if f[2] == "e" {
+			p.Address = ""
+		}
+		if rs, ok := w.raw["addr"]; ok { // class of the literal string: e (empty) | 0 | 1
+			p.Address = rs
+			_, err := sdk.AccAddressFromBech32(rs)
+			f[2] = c15f(err == nil)
+			if len(rs) == 0 {
+				f[2] = "e"
+			}
 		}
 		for i := 0; i < c15n(f[3]); i++ {
 			if c15b(f[5]) {
@@ -502,15 +595,18 @@ func (w *c15World) apply(r *Rec, op string) (string, string) {
 			p.Addresses = append(p.Addresses, fmt.Sprintf("0xaddr%d", i))
 		}
 		c, dec := w.roundTrip(p)
+		line := strings.Join(f, " ")
+		w.hist[len(w.hist)-1] = line + w.sfx
 		res := w.runContent(r, f[0], c, dec)
-		return op, fmt.Sprintf("v=%s h=%s c=%d", res.v, res.h, w.nClients())
+		return fix(line, fmt.Sprintf("v=%s h=%s c=%d", res.v, res.h, w.nClients()))
 	case "xgen":
 		return fix(w.applyXgen(r, f))
 	case "regcoin", "addcoin":
 		return fix(w.applyCoin(r, f))
 	case "regerc20":
-		addr := common.HexToAddress("0x" + f[2])
-		p := &aggtypes.RegisterERC20Proposal{Title: "t", Description: "d", ERC20Address: addr.Hex()}
+		spell, addr := addrField("a", f[2])
+		f[2] = c15addrTok(addr)
+		p := &aggtypes.RegisterERC20Proposal{Title: "t", Description: "d", ERC20Address: spell}
 		create := "err"
 		cc, _ := w.ctx.CacheContext()
 		safely(func() {
@@ -520,7 +616,7 @@ func (w *c15World) apply(r *Rec, op string) (string, string) {
 		})
 		c, dec := w.roundTrip(p)
 		line := strings.Join([]string{f[0], c15f(p.ValidateBasic() == nil), f[2], create}, " ")
-		w.hist[len(w.hist)-1] = line
+		w.hist[len(w.hist)-1] = line + w.sfx
 		res := w.runContent(r, f[0], c, dec)
 		return fix(line, fmt.Sprintf("v=%s h=%s n=%d", res.v, res.h, w.nPairs()))
 	case "togglerelay":
@@ -530,17 +626,27 @@ func (w *c15World) apply(r *Rec, op string) (string, string) {
 		} else {
 			tok = string(unhx(f[2][2:]))
 		}
+		if rs, ok := w.raw["t"]; ok { // the handler (GetTokenPairID) and the validator both classify with common.IsHexAddress
+			tok = rs
+			if common.IsHexAddress(rs) {
+				f[2] = "e:" + c15addrTok(common.HexToAddress(rs))
+			} else {
+				f[2] = "d:" + hxs(rs)
+			}
+		}
 		p := &aggtypes.ToggleTokenRelayProposal{Title: "t", Description: "d", Token: tok}
 		vok := false
 		safely(func() { vok = p.ValidateBasic() == nil })
 		c, dec := w.roundTrip(p)
 		line := strings.Join([]string{f[0], c15f(vok), f[2]}, " ")
-		w.hist[len(w.hist)-1] = line
+		w.hist[len(w.hist)-1] = line + w.sfx
 		res := w.runContent(r, f[0], c, dec)
 		return fix(line, fmt.Sprintf("v=%s h=%s n=%d", res.v, res.h, w.nPairs()))
 	case "updatepair":
-		oldA, newA := common.HexToAddress("0x"+f[2]), common.HexToAddress("0x"+f[3])
-		p := &aggtypes.UpdateTokenPairERC20Proposal{Title: "t", Description: "d", ERC20Address: oldA.Hex(), NewERC20Address: newA.Hex()}
+		oldS, oldA := addrField("o", f[2])
+		newS, newA := addrField("n", f[3])
+		f[2], f[3] = c15addrTok(oldA), c15addrTok(newA)
+		p := &aggtypes.UpdateTokenPairERC20Proposal{Title: "t", Description: "d", ERC20Address: oldS, NewERC20Address: newS}
 		metaFound, metaUnits, restOk := false, 0, false
 		safely(func() {
 			pair, found := ak.GetTokenPair(w.ctx, ak.GetERC20Map(w.ctx, oldA))
@@ -566,49 +672,55 @@ func (w *c15World) apply(r *Rec, op string) (string, string) {
 		})
 		c, dec := w.roundTrip(p)
 		line := strings.Join([]string{f[0], c15f(p.ValidateBasic() == nil), f[2], f[3], c15f(metaFound), strconv.Itoa(metaUnits), c15f(restOk)}, " ")
-		w.hist[len(w.hist)-1] = line
+		w.hist[len(w.hist)-1] = line + w.sfx
 		res := w.runContent(r, f[0], c, dec)
 		return fix(line, fmt.Sprintf("v=%s h=%s n=%d", res.v, res.h, w.nPairs()))
 	case "trace", "disable":
-		contract := w.ercPool[0]
+		spell, contract := addrField("a", c15addrTok(w.ercPool[0]))
 		var c govtypes.Content
 		evmOk := false
 		cc, _ := w.ctx.CacheContext()
 		if f[0] == "trace" {
-			c = &aggtypes.RegisterERC20TraceProposal{Title: c15title(c15b(f[1])), Description: "d", ERC20Address: contract.Hex(), OriginToken: "0xtoken", OriginChain: "eth-b", Scale: 2}
+			c = &aggtypes.RegisterERC20TraceProposal{Title: c15title(c15b(f[1])), Description: "d", ERC20Address: spell, OriginToken: "0xtoken", OriginChain: "eth-b", Scale: 2}
 			safely(func() { _, err := ak.AddERC20TraceToTransferContract(cc, contract, "0xtoken", "eth-b", 2); evmOk = err == nil })
 		} else {
-			c = &aggtypes.DisableTimeBasedSupplyLimitProposal{Title: c15title(c15b(f[1])), Description: "d", ERC20Address: contract.Hex()}
+			c = &aggtypes.DisableTimeBasedSupplyLimitProposal{Title: c15title(c15b(f[1])), Description: "d", ERC20Address: spell}
 			safely(func() { _, err := ak.DisableTimeBasedSupplyLimitInTransferContract(cc, contract); evmOk = err == nil })
+		}
+		if _, has := w.raw["a"]; has { // the flag is then the whole stateless verdict (title and address spelling)
+			vok := false
+			safely(func() { vok = c.ValidateBasic() == nil })
+			f[1] = c15f(vok)
 		}
 		c, dec := w.roundTrip(c)
 		line := strings.Join([]string{f[0], f[1], c15f(evmOk)}, " ")
-		w.hist[len(w.hist)-1] = line
+		w.hist[len(w.hist)-1] = line + w.sfx
 		res := w.runContent(r, f[0], c, dec)
 		return fix(line, fmt.Sprintf("v=%s h=%s", res.v, res.h))
 	case "enable":
-		contract := w.ercPool[0]
-		num := func(s string) string {
-			if s == "x" {
-				return "12a"
-			}
-			return s
-		}
-		p := &aggtypes.EnableTimeBasedSupplyLimitProposal{Title: c15title(c15b(f[6])), Description: "d", ERC20Address: contract.Hex(),
-			TimePeriod: num(f[2]), TimeBasedLimit: num(f[3]), MaxAmount: num(f[4]), MinAmount: num(f[5])}
-		if !c15b(f[1]) {
+		// the four numeric fields are the literal strings of the content (hex on the op line): the model parses them itself
+		spell, contract := addrField("a", c15addrTok(w.ercPool[0]))
+		p := &aggtypes.EnableTimeBasedSupplyLimitProposal{Title: c15title(c15b(f[6])), Description: "d", ERC20Address: spell,
+			TimePeriod: string(unhx(f[2])), TimeBasedLimit: string(unhx(f[3])), MaxAmount: string(unhx(f[4])), MinAmount: string(unhx(f[5]))}
+		if _, has := w.raw["a"]; has {
+			f[1] = c15f(ethermint.ValidateAddress(spell) == nil)
+		} else if !c15b(f[1]) {
 			p.ERC20Address = "0x12"
+			contract = common.HexToAddress(p.ERC20Address)
 		}
 		evmOk := false
 		cc, _ := w.ctx.CacheContext()
-		safely(func() {
+		safely(func() { // exactly the handler's conversion (SetString base 10, flag dropped); a nil value panics in abi.Pack: irrelevant then
 			bi := func(s string) *big.Int { v, _ := new(big.Int).SetString(s, 10); return v }
-			_, err := ak.EnableTimeBasedSupplyLimitInTransferContract(cc, common.HexToAddress(p.ERC20Address), bi(p.TimePeriod), bi(p.TimeBasedLimit), bi(p.MaxAmount), bi(p.MinAmount))
+			_, err := ak.EnableTimeBasedSupplyLimitInTransferContract(cc, contract, bi(p.TimePeriod), bi(p.TimeBasedLimit), bi(p.MaxAmount), bi(p.MinAmount))
 			evmOk = err == nil
 		})
+		for _, x := range []string{p.TimePeriod, p.TimeBasedLimit, p.MaxAmount, p.MinAmount} {
+			r.Count("enable.spelling." + c15spellClass(x))
+		}
 		c, dec := w.roundTrip(p)
 		line := strings.Join([]string{f[0], f[1], f[2], f[3], f[4], f[5], f[6], c15f(evmOk)}, " ")
-		w.hist[len(w.hist)-1] = line
+		w.hist[len(w.hist)-1] = line + w.sfx
 		res := w.runContent(r, f[0], c, dec)
 		return fix(line, fmt.Sprintf("v=%s h=%s", res.v, res.h))
 	case "agen":
@@ -715,7 +827,7 @@ func (w *c15World) applyXgen(r *Rec, f []string) (string, string) {
 	}
 	full := &xibctypes.GenesisState{ClientGenesis: gs, PacketGenesis: pg}
 	line := strings.Join(out, " ")
-	w.hist[len(w.hist)-1] = line
+	w.hist[len(w.hist)-1] = line + w.sfx
 	var verr error
 	vp, _ := safely(func() { verr = full.Validate() })
 	cc, write := w.ctx.CacheContext()
@@ -762,6 +874,13 @@ func (w *c15World) applyCoin(r *Rec, f []string) (string, string) {
 		if contractTok != "-" {
 			caddr = common.HexToAddress("0x" + contractTok).Hex()
 		}
+		if rs, ok := w.raw["c"]; ok { // validator and AddCoin both use common.IsHexAddress, then HexToAddress
+			caddr = rs
+			contractTok = "-"
+			if common.IsHexAddress(rs) {
+				contractTok = c15addrTok(common.HexToAddress(rs))
+			}
+		}
 		c = &aggtypes.AddCoinProposal{Title: "t", Description: "d", Metadata: md, ContractAddress: caddr}
 	}
 	restOk := true
@@ -793,7 +912,7 @@ func (w *c15World) applyCoin(r *Rec, f []string) (string, string) {
 		out = append(out, c15f(restOk), contractTok, c15f(md.Base == evmDenom), c15f(hasSupply), c15f(verifyOk))
 	}
 	line := strings.Join(out, " ")
-	w.hist[len(w.hist)-1] = line
+	w.hist[len(w.hist)-1] = line + w.sfx
 	cd, dec := w.roundTrip(c)
 	res := w.runContent(r, f[0], cd, dec)
 	return line, fmt.Sprintf("v=%s h=%s n=%d", res.v, res.h, w.nPairs())
@@ -832,7 +951,7 @@ func (w *c15World) applyAgen(r *Rec, f []string) (string, string) {
 		i = j
 	}
 	line := strings.Join(out, " ")
-	w.hist[len(w.hist)-1] = line
+	w.hist[len(w.hist)-1] = line + w.sfx
 	var verr error
 	vp, _ := safely(func() { verr = gs.Validate() })
 	cc, write := w.ctx.CacheContext()
@@ -869,10 +988,25 @@ func (w *c15World) applyRvgen(r *Rec, f []string) (string, string) {
 			gs.From = w.funded.String()
 		}
 	}
+	if rs, ok := w.raw["f"]; ok { // literal From string: class and solvency derived with the node's parser / bank keeper
+		gs.From = rs
+		f[i], canPay = "none", false
+		if len(rs) != 0 {
+			f[i] = "bad"
+			if from, err := sdk.AccAddressFromBech32(rs); err == nil {
+				f[i] = "good"
+				cc, _ := w.ctx.CacheContext()
+				safely(func() {
+					canPay = w.app.BankKeeper.SendCoinsFromAccountToModule(cc, from, rvestingtypes.ModuleName, gs.InitReward) == nil
+				})
+			}
+		}
+		f[i+2] = c15f(canPay)
+	}
 	irv := false
 	safely(func() { irv = gs.InitReward.Validate() == nil })
 	line := strings.Join(append(append([]string{}, f[:i+1]...), c15f(irv), f[i+2]), " ")
-	w.hist[len(w.hist)-1] = line
+	w.hist[len(w.hist)-1] = line + w.sfx
 	var verr error
 	vp, _ := safely(func() { verr = rvestingtypes.ValidateGenesis(gs) })
 	cc, _ := w.ctx.CacheContext()
